@@ -219,4 +219,23 @@ def srvMonitor (o : SrvObs) : Option SrvClause :=
 def srvModelLine (e : SrvEnd) (o : SrvObs) : SrvObs :=
   if srvRun e true = o then o else if srvRun e false = o then o else srvRun e true
 
+/-! ### CommandTransport.Connect failing (StdoutPipe / StdinPipe / Start return an error) -/
+
+structure ConnObs where
+  err : Bool := true        -- Connect returned an error
+  started : Bool := false   -- a process exists
+  leak : Bool := false
+deriving DecidableEq, Repr, Inhabited
+
+/-- Each of the three error returns of Connect comes before, or is, the failure of `Command.Start`:
+no process, no goroutine (newIOConn is not reached). -/
+def connFail : ConnObs := {}
+
+inductive ConnClause | processLeft | goroutineLeft deriving DecidableEq, Repr, Inhabited
+
+def connMonitor (o : ConnObs) : Option ConnClause :=
+  if o.err = true ∧ o.started = true then some .processLeft
+  else if o.leak = true then some .goroutineLeft
+  else none
+
 end CmdTransport
